@@ -199,6 +199,7 @@ type c10Node struct {
 	inbox  []c10Msg
 	gate   *c10Gate
 	done   chan []c10Msg // non-nil while a call is parked: receives the replies the call produced
+	stamp  func([]c10Msg) []c10Msg
 }
 
 // node id token: <n> = "node-%05d", s:<dotted bytes> = the bytes, s:e = ""
@@ -358,7 +359,7 @@ func (n *c10Node) start(o *c10Node, call func() []c10Msg) bool {
 		return true
 	case r := <-done:
 		n.gate.kind = ""
-		o.inbox = append(o.inbox, r...)
+		o.inbox = append(o.inbox, n.stamp(r)...)
 		return false
 	}
 }
@@ -368,7 +369,7 @@ func (n *c10Node) releaseParked(o *c10Node) {
 		return
 	}
 	n.gate.release <- struct{}{}
-	o.inbox = append(o.inbox, (<-n.done)...)
+	o.inbox = append(o.inbox, n.stamp(<-n.done)...)
 	n.done = nil
 }
 
@@ -462,6 +463,19 @@ func c10RunCaseOnce(f []string) (res string) {
 		out = append(out, line)
 		sink = sink[:0]
 	}
+	// every heartbeat gets a build time that is strictly increasing in build order (time.Now() may repeat):
+	// the model's staleness bookkeeping (Stale.v) orders messages by build time
+	var clock int64
+	stamp := func(ms []c10Msg) []c10Msg {
+		for _, m := range ms {
+			if m.m != nil {
+				clock++
+				m.m.TimestampNs = clock
+			}
+		}
+		return ms
+	}
+	a.stamp, b.stamp = stamp, stamp
 	both := []string{c10SRG}
 	if g2 != nil {
 		both = []string{c10SRG, c10SRG2}
@@ -497,7 +511,7 @@ func c10RunCaseOnce(f []string) (res string) {
 			n.stream.sent = nil
 			n.hb.sendHeartbeat()
 			for _, m := range n.stream.sent {
-				o.inbox = append(o.inbox, c10Msg{m: m, req: true})
+				o.inbox = append(o.inbox, stamp([]c10Msg{{m: m, req: true}})...)
 			}
 			n.stream.sent = nil
 		case "dl":
@@ -516,7 +530,7 @@ func c10RunCaseOnce(f []string) (res string) {
 					return "badcase heartbeat_handler_error"
 				}
 				for _, r := range ss.reply {
-					o.inbox = append(o.inbox, c10Msg{m: r, req: false})
+					o.inbox = append(o.inbox, stamp([]c10Msg{{m: r, req: false}})...)
 				}
 			} else {
 				// HeartbeatLoop.ReceiveLoop: msg, err := peer.RecvHeartbeat(); ...; manager.handlePeerHeartbeat(msg)
